@@ -2,6 +2,7 @@
 
 use proc_macro::TokenStream;
 use quote::quote;
+use syn::ext::IdentExt;
 use syn::{DataEnum, DeriveInput, Ident, Lit, Meta, Variant};
 
 /// Derives the `FromJson` trait for an enum.
@@ -17,7 +18,7 @@ pub fn from_json_enum(ast: DeriveInput, r#enum: &DataEnum) -> TokenStream {
         .iter()
         .map(|variant| {
             if variant.attrs.is_empty() {
-                variant.ident.to_string()
+                variant.ident.unraw().to_string()
             } else {
                 let attr = variant
                     .attrs
@@ -72,7 +73,7 @@ pub fn into_json_enum(ast: DeriveInput, r#enum: &DataEnum) -> TokenStream {
         .iter()
         .map(|variant| {
             if variant.attrs.is_empty() {
-                variant.ident.to_string()
+                variant.ident.unraw().to_string()
             } else {
                 let attr = variant
                     .attrs
